@@ -344,13 +344,19 @@ func vhReq(t *vhToks) string {
 		// sanity: the request the router saw carried the decoded path of the case line
 		_ = decoded
 	}
+	// the headers a client receives are those present when the status line was written (a header set after
+	// WriteHeader is lost): rr.Result() holds that snapshot, rr.Header() is the handler's live map
+	var sent http.Header
+	if rr != nil {
+		sent = rr.Result().Header
+	}
 	if handle == nil {
 		allow := "-"
-		if a := rr.Header().Get("Allow"); a != "" {
+		if a := sent.Get("Allow"); a != "" {
 			allow = "allow"
 		}
 		loc := "-"
-		if rr.Header().Get("Location") != "" {
+		if sent.Get("Location") != "" {
 			loc = "loc"
 		}
 		return fmt.Sprintf("U %d %s %s %d", rr.Code, allow, loc, len(reqs))
@@ -359,7 +365,7 @@ func vhReq(t *vhToks) string {
 	if crashed {
 		sb.WriteString("CRASH")
 	} else {
-		ct := rr.Header().Get("Content-Type")
+		ct := sent.Get("Content-Type")
 		ctk := "other"
 		switch {
 		case ct == "application/json" || strings.HasPrefix(ct, "application/json;"):
